@@ -647,6 +647,9 @@ type Group struct {
 	Dflt   string   `json:"default"` // none | (some goval)
 	V      string   `json:"value"`   // cv sexp | omitted
 	Extra  bool     `json:"extra_argument,omitempty"`
+	ImplA  string   `json:"impl_a_arg_defs,omitempty"` // polymorphic site: the implementers' definitions
+	ImplB  string   `json:"impl_b_arg_defs,omitempty"`
+	Via    string   `json:"via,omitempty"`
 	Cases  []Case   `json:"cases,omitempty"` // explicit spellings (random ones); empty = the deterministic set
 	Lossy  []bool   `json:"lossy,omitempty"`
 	Gap    []bool   `json:"gap,omitempty"`
@@ -716,7 +719,7 @@ func (g *Group) argName() string {
 func (g *Group) build(label string, r *hx.Rand, pick func(p *position) mode) (Case, bool, bool, bool) {
 	s := &speller{pick: pick, r: r}
 	top := position{L: g.t, v: g.v, top: true, locDefault: g.dflt != nil}
-	if g.Site != "field" {
+	if g.Site != "field" && g.Site != "poly" {
 		top.locDefault = fieldLocDefault(g.dflt)
 	}
 	if g.v != nil {
@@ -744,7 +747,7 @@ func (g *Group) build(label string, r *hx.Rand, pick func(p *position) mode) (Ca
 		raw = append(raw, kv(x.Name, x.V))
 	}
 	c := Case{Site: g.Site, Env: g.Env, ArgDefs: hx.L(argDefs...).String(), VarDefs: hx.L(vds...).String(),
-		Args: hx.L(args...).String(), Raw: hx.L(raw...).String(), Label: label}
+		Args: hx.L(args...).String(), Raw: hx.L(raw...).String(), Label: label, ImplA: g.ImplA, ImplB: g.ImplB, Via: g.Via}
 	// A Go-kind spelling is not compared with the other spellings (most kinds are refused), but when
 	// every re-encoded part still denotes the client value an accepted result must be the reference's.
 	sound := s.goKinds && !s.goBroken && !s.lossy
